@@ -2,7 +2,7 @@
 """Regenerates MANIFEST.json from the table below."""
 import json
 claimed = {
- "C02": ("exploration", "8 C02", "seeded deterministic whole-system simulation: real frps + real frpc http proxy, raw HTTP/1.1 users and a recording backend; request/response comparison modulo declared rewrites; bounded error answers for unreachable and silent backends",
+ "C02": ("exploration", "8 C02", "seeded deterministic whole-system simulation: real frps + real frpc http proxy (and the http2http, http2https, https2http, https2https client plugins behind http, https or tcp proxies), raw HTTP/1.1 users (plain or TLS) and a recording backend; request/response comparison modulo declared rewrites; protocol-upgrade and CONNECT tunnels through the vhost port; two routes by http user on one host; slow bodies and idle tunnels longer than the header timeout; bounded error answers for unreachable and silent backends",
          "Generated request/response shapes x header-rewrite configurations x tunnel options x keep-alive sequences x network schedules; bodies compared after de-framing, end-to-end headers as multisets."),
  "C03": ("exploration", "8 C03", "seeded deterministic whole-system simulation over simulated UDP with per-leg loss/duplication/reordering and work-connection resets; multiset-inclusion oracles measured at the public socket and at the client's local sockets; reply addressing",
          "Datagram payloads 12..packet size, several user source addresses, udp and sudp(visitor) paths, encryption/compression/mux; injected duplication/loss is never blamed on frp because inclusion is measured after the faulty leg."),
@@ -18,13 +18,13 @@ claimed = {
          "Histories of configuration sets x server replies x probe outcomes on the fake clock; the trace the scripted server records is compared with a reference model of 'configured and healthy', including the consecutive-failure rule."),
  "C20": ("exploration", "8 C20", "seeded deterministic simulation: scripted visitor/owner/third-party controls on real frps with generated NAT observations and message orders; pairing, complementarity, mode-rule, range and hygiene oracles; real MakeHole for both roles over simulated UDP",
          "Generated observation pairs x histories (reports before analysis, duplicates, unknown sids, silent owner); both responses are compared with each other and with the statement's role rules; the real client routine must meet on an unfiltered simulated network."),
- "C04": ("exploration", "8 C04", "seeded deterministic simulation: adversarial scripted peers (independent protocol implementation) against real frps with an honest client carrying traffic; refusal, heartbeat-timeout, footprint and bystander oracles",
+ "C04": ("exploration", "8 C04", "seeded deterministic simulation: adversarial scripted peers (independent protocol implementation) against real frps with an honest client carrying traffic; token method with every scope subset, TLS, mux, the ssh tunnel gateway (authorized / unauthorized keys, token-required mode, churn of legitimate users) and the OIDC method against a stub issuer (11 invalid token variants in logins, heartbeats, work connections); refusal, heartbeat-timeout, footprint and bystander oracles",
          "Adversarial message histories (bad/missing/self-exempting logins, foreign/unknown work connections, unauthenticated first messages, invalid-heartbeat sessions, floods) x scopes x TLS x mux; every refused attempt must be answered by an error or a close, never by state."),
  "C08": ("exploration", "8 C08", "seeded deterministic simulation: scripted visitors with right/wrong signatures, users and run ids against stcp/sudp/xtcp proxies with drawn allowed-user lists, interleaved with proxy close/re-open",
          "bridged (owner sees a start / session id) implies signed and allowed; refused requests must reach neither owner nor backend; admitted plain streams are echoed byte for byte."),
  "C15": ("fault_enumeration", "8 C15", "seeded deterministic simulation: real net/http stub plugin servers with per-operation outcomes (accept, rewrite, reject, 500, reset, malformed, unreachable) chained in drawn order; fold over the chain is the oracle",
          "plugin outcome x operation is enumerated per run; the gated effect must equal the fold over the subscribed chain, later plugins and the server must see earlier rewrites, unsubscribed plugins see nothing, CloseProxy notifications arrive for explicit and session-end stops."),
- "C16": ("exploration", "8 C16", "seeded deterministic simulation incl. race-detector builds: extreme-value message barrage by authenticated peers concurrent with lifecycle/group/visitor/NAT-hole traffic; any frp panic/fatal in any world, map races in frp server/pkg code, stalled sessions",
+ "C16": ("exploration", "8 C16", "seeded deterministic simulation incl. race-detector builds: extreme-value message barrage by authenticated peers concurrent with lifecycle/group/visitor/NAT-hole traffic, plus the worlds in which real client code runs (frpc against a scripted server, liveness faults, the ssh gateway's virtual client inside frps with users coming and going) under L2 yield perturbation; any frp panic/fatal in any world, map races in frp server/pkg/client code, stalled sessions",
          "Crash = unrecovered panic or runtime fatal with an frp frame on the panicking stack; race builds run the same worlds single-P under the happens-before detector and report only map accesses from frp code on both sides; every surviving session must still answer a heartbeat."),
  "C17": ("exploration", "8 C17", "seeded deterministic simulation: independent codec interoperating with real frps in every world, wire monitor re-parsing every frame frps emits against the released field names, framing faults (1-byte chunking, EOF at offsets, unknown type, negative/oversized length with withheld body, malformed bodies)",
          "Interoperability and wire stability are decided by an implementation written from the released protocol; bounded decoding is observed as 'closes without waiting for the announced body'."),
@@ -38,7 +38,7 @@ claimed = {
          "Histories and interleavings of 2-3 scripted clients; at the acknowledgement of a re-login the old session's ports must already be unbound, own names re-register, exactly one survivor of concurrent re-logins, late cleanup never removes the new session."),
  "C13": ("exploration", "8 C13", "seeded deterministic simulation with L2 yield perturbation: join/leave/drop/probe/rotation histories and last-leave-racing-join steps on tcp, http and tcpmux groups against a membership model; any frps panic counts",
          "Explores the lookup/mutate window of the group controllers under seeded perturbation at every lock/channel site; membership model decides every join and every served connection."),
- "C01": ("exploration", "8 C01", "seeded deterministic whole-system simulation (frps+frpc in one synctest bubble on a simulated network) with per-read stream-prefix, completeness, close-propagation, cross-wiring, PROXY-header and sliding-window bandwidth oracles",
+ "C01": ("exploration", "8 C01", "seeded deterministic whole-system simulation (frps+frpc in one synctest bubble on a simulated network) with per-read stream-prefix, completeness, close-propagation, cross-wiring, PROXY-header and sliding-window bandwidth oracles; a second world measures small bandwidth limits at the limiter itself (payload of mux frames / wire bytes at the instant of the write) against large write blocks",
          "Exploration over the option lattice x payloads x chunking x close orders x network schedules; every read at both endpoints is compared with the unique stream written at the matching endpoint, so loss/duplication/reordering/alteration/injection/cross-wiring show up at the first bad byte. Sampling, not proof."),
 }
 na = {
